@@ -487,6 +487,20 @@ class C14Exec(execs.PyExec):
             if shape_of(ho[f]) != shape_of(hists[f]):
                 msgs.append("feature %s: the returned specifications give binning %r on another frame, %r on the original"
                             % (f, shape_of(ho[f]), shape_of(hists[f])))
+        # 4b. the specifications read back from the histograms themselves (get_bin_specs) give the same binning again
+        from histogrammar.dfinterface.make_histograms import get_bin_specs
+
+        try:
+            specs2 = get_bin_specs(hists)
+            h2 = self.call(other, p, features=list(feats), bin_specs=copy.deepcopy(specs2), time_axis=tax, var_dtype=dict(vdt))
+            for f in feats:
+                if len(plan[f][0]) != len(f.split(":")):
+                    continue   # a leaf-type specification in a middle dimension ends the tree early: fewer specs than dimensions
+                if shape_of(h2[f]) != shape_of(hists[f]):
+                    msgs.append("feature %s: get_bin_specs of the histograms gives %r, which bins as %r instead of %r"
+                                % (f, specs2.get(f), shape_of(h2[f]), shape_of(hists[f])))
+        except Exception as e:  # noqa: BLE001
+            msgs.append("get_bin_specs of the returned histograms, or reusing them, raised %s: %s" % (type(e).__name__, str(e)[:200]))
         # 5. the frame is not modified
         if not df.equals(keep) or list(df.columns) != list(keep.columns) or not df.index.equals(keep.index) or list(df.dtypes) != list(keep.dtypes):
             msgs.append("make_histograms modified the input dataframe")
